@@ -8,6 +8,7 @@ import ast
 
 from ..absint import FlagEval, TOP
 from ..model import walk_shallow, call_name, is_self_attr, dotted_name, parent, ancestors, enclosing_function
+from ..util import canon
 from ..util import (has_call, find_calls, assigned_value, const_str, unparse, kw, arg_or_kw, enclosing_stmt,
                     guards_of, call_tail, control_ancestors, name_bound, bound_names)
 from .. import mutate as M
@@ -34,8 +35,14 @@ def run(ctx):
     r3_framing(ctx)
     r4_arff_keywords(ctx)
     r5_quote_symmetry(ctx)
+    r5b_escape_agreement(ctx)
     r6_missing_positions(ctx)
     r7_csv_dialect(ctx)
+    r8_line_producers(ctx)
+    r9_stale_aliases(ctx)
+    r10_sparse_tokens(ctx)
+    r11_declared_level_order(ctx)
+    r12_libsvm_tokens(ctx)
 
 
 def _nested(fn, name):
@@ -80,9 +87,23 @@ def r1_stateful_chunks(ctx):
         dvals = assigned_value(fn, DECOMP)
         objs_outside = all(not any(enclosing_stmt(v) in list(walk_shallow(l2)) for l2 in loops) for v in dvals)
         shapes = [unparse(v) for v in dvals]
-        ok = bool(dcalls) and objs_outside and len(dvals) >= 3 and sum(1 for s in shapes if s.startswith("zlib.decompressobj(") and s.endswith(".decompress")) == 2
-        ctx.ob("C12.R1", SRC, "HttpSource._byte_it_", dcalls[0] if dcalls else lp, "one decompressor object (created before the loop) is fed every chunk", ok,
-               detail={"decomp": shapes})
+        ddefs = [x for x in ast.walk(fn) if isinstance(x, ast.FunctionDef) and x is not fn and x.name == DECOMP and not any(x in list(ast.walk(l2)) for l2 in loops)]
+        # a decompressor is either <decompressobj>.decompress bound before the loop, or a local function (defined before the loop) that keeps its decompressobj
+        # in state created at definition time (a default argument) -- never an object made per chunk without carrying the previous one's unused input
+        n_objs = sum(1 for s_ in shapes if s_.startswith("zlib.decompressobj(") and s_.endswith(".decompress")) + len(ddefs)
+        ok = bool(dcalls) and objs_outside and (len(dvals) + len(ddefs)) >= 3 and n_objs == 2
+        for d_ in ddefs:
+            state_defaults = [dflt for dflt in d_.args.defaults if "decompressobj" in unparse(dflt)]
+            ok = ok and bool(state_defaults)
+        ctx.ob("C12.R1", SRC, "HttpSource._byte_it_", dcalls[0] if dcalls else lp, "one decompressor (created before the loop) is fed every chunk", ok,
+               detail={"decomp": shapes + [f"def {d_.name}(...)" for d_ in ddefs]})
+        # gzip bodies may hold several members: the gzip decompressor continues with a new object on the unused input when a member ends
+        gz_direct = [s_ for s_ in shapes if s_.startswith("zlib.decompressobj(16") and s_.endswith(".decompress")]
+        gz_defs = [d_ for d_ in ddefs if "16" in unparse(d_)]
+        multi = bool(gz_defs) and not gz_direct and all(any(isinstance(y, ast.Attribute) and y.attr == "unused_data" for y in ast.walk(d_)) and any(isinstance(y, ast.Attribute) and y.attr == "eof" for y in ast.walk(d_))
+                                                        and any(isinstance(y, ast.While) for y in ast.walk(d_)) for d_ in gz_defs)
+        ctx.ob("C12.R1", SRC, "HttpSource._byte_it_", (gz_defs or [fn])[0], "the gzip decompressor reads every member of a multi-member body (continues on unused_data after a member's end)", multi,
+               stmt="multi-member gzip")
         if ch is not None:
             # a final flush of the decoder after the loop
             pass
@@ -150,6 +171,128 @@ def gz_predicate(ctx, rule):
     norm = lambda s: s.replace("self._filename", "P").replace("self._path", "P")
     ok = len(wp) == 1 and len(rp) == 1 and norm(wp[0]) == norm(rp[0])
     ctx.ob(rule, SNK, "DiskSink.__enter__", enter, "writer and reader choose gzip by the same predicate on the path", ok, detail={"writer": wp, "reader": rp}, stmt="gz predicate")
+
+
+def r8_line_producers(ctx, rule="C12.R8"):
+    """the readers iterate what a source yields as LINES: a source whose read() may answer with one string (HttpSource without chunk size returns
+    the decoded body) must be split before it reaches them -- iterating a str yields its characters."""
+    ctx.rule(rule, "line producers: UrlSource (what ArffSource/CsvSource/LibsvmSource/ManikSource read from) returns lines for every scheme -- the answer of an HttpSource built "
+                   "without chunk size (one str) is split with splitlines(), the same boundary set the chunked path uses, or the HttpSource is given a chunk size")
+    cls = ctx.model.cls(SRC, "UrlSource")
+    init, rd = cls.methods["__init__"], cls.methods["read"]
+    https = [c for c in ast.walk(init) if isinstance(c, ast.Call) and call_name(c) == "HttpSource"]
+    ctx.floor(rule, "HttpSource constructions in UrlSource", len(https), 1)
+    chunked = all(len(c.args) >= 2 or kw(c, "chunk_size") is not None for c in https)
+    # HttpSource._byte_it_: the un-chunked arm returns a str
+    bi = ctx.fn(SRC, "HttpSource._byte_it_")
+    str_arm = [r for r in ast.walk(bi) if isinstance(r, ast.Return) and isinstance(r.value, ast.Call) and call_tail(r.value) == "decode"]
+    ctx.note(f"{rule}: HttpSource._byte_it_ has {len(str_arm)} arm(s) returning the decoded body as one str")
+    rets = [r for r in walk_shallow(rd) if isinstance(r, ast.Return) and r.value is not None]
+    ok = False
+    for r in rets:
+        v = r.value
+        if isinstance(v, ast.IfExp) and isinstance(v.body, ast.Call) and call_tail(v.body) == "splitlines" and not v.body.args:
+            X = unparse(v.body.func.value)
+            t = v.test
+            if isinstance(t, ast.Call) and call_name(t) == "isinstance" and unparse(t.args[0]) == X and unparse(t.args[1]) == "str" and unparse(v.orelse) == X:
+                ok = True
+        if isinstance(v, ast.Call) and call_tail(v) == "read" and isinstance(v.func.value, ast.Call) and call_name(v.func.value) == "DelimSource":
+            ok = True
+    ctx.ob(rule, SRC, "UrlSource.read", rets[0] if rets else rd, "a one-string answer of the inner source is split into lines before it is handed to the readers", ok or chunked or not str_arm,
+           detail={"HttpSource given a chunk size": chunked}, stmt="UrlSource yields lines")
+
+
+def r9_stale_aliases(ctx, rule="C12.R9"):
+    """alias staleness: a local bound to a parser-state attribute (`q = self._quotechar`) must not be consulted after the method itself re-assigned that attribute."""
+    from ..cfg import CFG
+    from ..util import escape_path, node_ast_for_effects
+    ctx.rule(rule, "no stale copy of the parser state: in the ARFF/CSV reader methods, a local that aliases a self attribute is not read on any path after the method stored a new value "
+                   "into that attribute without re-binding the local (reaching definitions on the CFG) -- the quote character settled by the first test of a row is the one the next test sees")
+    n = 0
+    for c in ctx.model.classes:
+        if c.rel != RDR:
+            continue
+        for name, fn in sorted(c.methods.items()):
+            aliases = {}
+            for st in walk_shallow(fn):
+                if isinstance(st, ast.Assign) and len(st.targets) == 1 and isinstance(st.targets[0], ast.Name) and is_self_attr(st.value):
+                    aliases[st.targets[0].id] = st.value.attr
+            if not aliases:
+                continue
+            g = None
+            for X, A in sorted(aliases.items()):
+                stores = [x for x in walk_shallow(fn) if isinstance(x, ast.Assign) and any(is_self_attr(t, A) for t in x.targets)]
+                if not stores:
+                    continue
+                g = g or CFG(fn)
+                rebind = {nd.id for nd in g.nodes if nd.kind == "stmt" and isinstance(nd.ast, ast.Assign) and any(isinstance(t, ast.Name) and t.id == X for t in nd.ast.targets)}
+                reads = {nd.id for nd in g.nodes if node_ast_for_effects(nd) is not None and nd.id not in rebind and
+                         any(isinstance(y, ast.Name) and y.id == X and isinstance(y.ctx, ast.Load) for y in ast.walk(node_ast_for_effects(nd)))}
+                for st in stores:
+                    for sid in g.stmt_nodes.get(id(st), []):
+                        n += 1
+                        p_ = escape_path(g, sid, rebind, reads, first_labels_skip=("exc", "abandon"), skip_labels=("exc", "abandon"))
+                        ctx.ob(rule, RDR, f"{c.name}.{name}", st, f"after self.{A} is re-assigned the local copy `{X}` is re-bound before it is read again", p_ is None,
+                               detail=None if p_ is None else {"stale read path": g.describe_path(p_)})
+    ctx.floor(rule, "re-assignments of aliased parser state", n, 2)
+
+
+def r10_sparse_tokens(ctx, rule="C12.R10"):
+    """sparse ARFF rows: a quoted value may hold the very characters the row is split on."""
+    from ..util import all_guards
+    ctx.rule(rule, "ArffLineReader._sparse splits a row on blanks/commas only when the row holds no quote character (the guard is a test of both quote characters on the row); "
+                   "rows with quotes go through a tokenising pattern whose coverage of the whole row is checked (fullmatch) and a row it does not cover is rejected -- never silently mis-split")
+    fn = ctx.fn(RDR, "ArffLineReader._sparse")
+    L = fn.args.args[1].arg
+    n = 0
+
+    def quote_test(t):
+        cs = {const_str(c.left) for c in ast.walk(t) if isinstance(c, ast.Compare) and len(c.ops) == 1 and isinstance(c.ops[0], ast.In) and unparse(c.comparators[0]) == L}
+        return {"'", '"'} <= cs
+    for c in [c for c in ast.walk(fn) if isinstance(c, ast.Call) and call_tail(c) == "split" and (call_name(c) in ("re.split",) or isinstance(c.func, ast.Attribute))]:
+        n += 1
+        gs = all_guards(c, fn)
+        ok = any((not pol) and quote_test(t) for t, pol in gs) or any((not pol) and isinstance(t, ast.Compare) and const_str(t.left) in ("'", '"') for t, pol in gs) and \
+            {const_str(t.left) for t, pol in gs if not pol and isinstance(t, ast.Compare)} >= {"'", '"'}
+        ctx.ob(rule, RDR, "ArffLineReader._sparse", c, "the row is split on blanks and commas only when it holds no quote character", ok)
+    ctx.floor(rule, "separator splits in ArffLineReader._sparse", n, 1)
+    fm = [c for c in ast.walk(fn) if isinstance(c, ast.Call) and call_tail(c) == "fullmatch"]
+    ok = False
+    for c in fm:
+        st = enclosing_stmt(c)
+        ok = ok or (isinstance(st, ast.If) and isinstance(st.test, ast.UnaryOp) and isinstance(st.test.op, ast.Not) and any(isinstance(x, ast.Raise) for x in st.body))
+    ctx.ob(rule, RDR, "ArffLineReader._sparse", fm[0] if fm else fn, "a row with quotes that the tokenising pattern does not cover completely is rejected", ok, stmt="quoted sparse row validated")
+
+
+def r11_declared_level_order(ctx, rule="C12.R11"):
+    """CategoricalEncoder keeps the given order only for a duplicate-free list (a list with duplicates is sorted): the reader must not create duplicates."""
+    from ..util import all_guards
+    ctx.rule(rule, "declared level order: the level list ArffAttrReader hands to CategoricalEncoder is the declared list, and the reader's own extra level for sparse data ('0') is "
+                   "put in front only when the attribute does not declare it (a duplicate makes CategoricalEncoder sort the levels); CategoricalEncoder sorts only lists with duplicates")
+    enc = ctx.fn(RDR, "ArffAttrReader._encoder")
+    adds = [st for st in ast.walk(enc) if isinstance(st, ast.Assign) and isinstance(st.value, ast.BinOp) and isinstance(st.value.op, ast.Add) and isinstance(st.value.left, ast.List)
+            and len(st.value.left.elts) == 1 and isinstance(st.value.right, ast.Name)]
+    ctx.floor(rule, "reader-added levels in ArffAttrReader._encoder", len(adds), 1)
+    for st in adds:
+        lvl, lst = unparse(st.value.left.elts[0]), st.value.right.id
+        ok = any(pol and canon(unparse(t)) == canon(f"{lvl} not in {lst}") for t, pol in all_guards(st, enc))
+        ctx.ob(rule, RDR, "ArffAttrReader._encoder", st, f"the extra level {lvl} is added only when the declared levels lack it", ok)
+    ce = ctx.fn("coba/encodings.py", "CategoricalEncoder.__init__")
+    sorts = [st for st in ast.walk(ce) if isinstance(st, ast.Assign) and any(isinstance(t, ast.Name) and t.id == "values" for t in st.targets) and "sorted" in unparse(st.value)]
+    okc = all(any(pol and "len(" in unparse(t) and "!=" in unparse(t) for t, pol in all_guards(st, ce)) for st in sorts)
+    ctx.ob(rule, "coba/encodings.py", "CategoricalEncoder.__init__", sorts[0] if sorts else ce, "CategoricalEncoder re-orders the given levels only when they contain duplicates", okc, stmt="encoder keeps a duplicate-free order")
+
+
+def r12_libsvm_tokens(ctx, rule="C12.R12"):
+    ctx.rule(rule, "LibSVM/Manik lines are tokenised on whitespace as the format's own reader does (any run of blanks or tabs): the line is split with the argument-less str.split(), "
+                   "never on one fixed separator character (a tab separated line would be one token, taken for a label-less line and dropped)")
+    fn = ctx.fn(RDR, "LibsvmReader.filter")
+    L = [x.target.id for x in walk_shallow(fn) if isinstance(x, ast.For) and isinstance(x.target, ast.Name)]
+    splits = [c for c in ast.walk(fn) if isinstance(c, ast.Call) and call_tail(c) == "split" and isinstance(c.func, ast.Attribute)
+              and any(isinstance(y, ast.Name) and y.id in L for y in ast.walk(c.func.value))]
+    ctx.floor(rule, "line splits in LibsvmReader.filter", len(splits), 1)
+    for c in splits:
+        ctx.ob(rule, RDR, "LibsvmReader.filter", c, "the line is split on any whitespace", not c.args and not c.keywords)
 
 
 def _fold_mode_after_exit(fn, mode):
@@ -296,6 +439,36 @@ def r5_quote_symmetry(ctx):
            detail={"independent_blocks": [q for q, _ in blocks], "quote_tests_found": len(nested)}, stmt="quote blocks")
 
 
+def r5b_escape_agreement(ctx, rule="C12.R5"):
+    """the header parser and the row parser un-escape quoted text the same way: a backslash escapes the next character."""
+    sp = ctx.fn(RDR, "ArffAttrReader._split")
+    strips_all = [c for c in ast.walk(sp) if isinstance(c, ast.Call) and call_tail(c) == "replace" and len(c.args) == 2 and const_str(c.args[0]) == "\\" and const_str(c.args[1]) == ""]
+    subs = [c for c in ast.walk(sp) if isinstance(c, ast.Call) and call_name(c) in ("re.sub", "sub") and len(c.args) >= 3 and const_str(c.args[0]) == "\\\\(.)" and const_str(c.args[1]) == "\\1"]
+    ctx.ob(rule, RDR, "ArffAttrReader._split", (strips_all or subs or [sp])[0], "quoted header text is un-escaped like the rows are (backslash + character -> character; a doubled backslash is one backslash), "
+           "not by deleting every backslash", bool(subs) and not strips_all, stmt="header un-escape")
+    # the fallback parser of dense rows: same un-escape, pieces of a quoted value re-joined with the delimiter they were split on, empty cells tolerated
+    adv = ctx.fn(RDR, "ArffLineReader._dense_advanced")
+    strips_all = [c for c in ast.walk(adv) if isinstance(c, ast.Call) and call_tail(c) == "replace" and len(c.args) == 2 and const_str(c.args[0]) == "\\" and const_str(c.args[1]) == ""]
+    subs = [c for c in ast.walk(adv) if isinstance(c, ast.Call) and call_name(c) in ("re.sub", "sub") and len(c.args) >= 3 and const_str(c.args[0]) == "\\\\(.)" and const_str(c.args[1]) == "\\1"]
+    ctx.ob(rule, RDR, "ArffLineReader._dense_advanced", (strips_all or subs or [adv])[0], "the fallback parser un-escapes like the csv path (backslash + character -> character)", bool(subs) and not strips_all,
+           stmt="fallback un-escape")
+    splits = [c for c in ast.walk(adv) if isinstance(c, ast.Call) and call_tail(c) == "split" and isinstance(c.func, ast.Attribute) and unparse(c.func.value) == adv.args.args[1].arg and c.args
+              and not isinstance(c.args[0], ast.Constant)]
+    delim = unparse(splits[0].args[0]) if splits else None
+    rejoin = [x for x in ast.walk(adv) if isinstance(x, ast.AugAssign) and isinstance(x.op, ast.Add) and isinstance(x.value, ast.BinOp) and isinstance(x.value.op, ast.Add)]
+    ctx.ob(rule, RDR, "ArffLineReader._dense_advanced", rejoin[0] if rejoin else adv, "pieces of a quoted value are re-joined with the delimiter the row was split on", bool(rejoin) and delim is not None and
+           all(unparse(x.value.left) == delim for x in rejoin), detail={"split on": delim, "re-joined with": [unparse(x.value.left) for x in rejoin]}, stmt="fallback re-join")
+    from ..util import all_guards as _ag
+    firsts = [x for x in ast.walk(adv) if isinstance(x, ast.Subscript) and isinstance(x.slice, ast.Constant) and x.slice.value == 0 and isinstance(x.value, ast.Name)
+              and isinstance(parent(x), ast.Compare)]
+    okf = all(any(pol and unparse(t) == unparse(x.value) for t, pol in _ag(x, adv)) for x in firsts)
+    ctx.ob(rule, RDR, "ArffLineReader._dense_advanced", firsts[0] if firsts else adv, "the first character of a cell is looked at only for a non-empty cell", bool(firsts) and okf, stmt="fallback empty cell")
+    lr = ctx.model.cls(RDR, "ArffLineReader")
+    esc = [k for f_ in lr.methods.values() for d in ast.walk(f_) if isinstance(d, ast.Dict) for k, v in zip(d.keys, d.values) if const_str(k) == "escapechar" and const_str(v) == "\\"] + \
+          [k for f_ in lr.methods.values() for c in ast.walk(f_) if isinstance(c, ast.Call) for k in c.keywords if k.arg == "escapechar" and const_str(k.value) == "\\"]
+    ctx.ob(rule, RDR, "ArffLineReader", lr.node, "the row dialect un-escapes with escapechar backslash", bool(esc), stmt="row escapechar")
+
+
 def _marker_tests(e, marker="?"):
     """{(position, text of the string tested)} for the '?'-field tests in expression e: prefix X[:2]=='?,', infix ',?,' in X, suffix X[-2:]==',?'"""
     out = set()
@@ -339,6 +512,16 @@ def r6_missing_positions(ctx):
             raw |= {(p_, t) for p_, t in _marker_tests(x.test)}
     ctx.ob("C12.R6", RDR, "ArffDataReader._dense", fn, "the fast path tests the raw line for the leading and the trailing form", {p_ for p_, _ in raw} >= {"prefix", "suffix"},
            detail={"raw": sorted(raw)}, stmt="raw missing tests")
+    # value level: ARFF's missing marker is the UNQUOTED `?`; a quoted '?' is the one-character string.  The cells reach the encoders after csv.reader (or the
+    # fallback parser) removed the quotes, so an encoder that maps "?" to None cannot tell the two apart unless the line reader passes quoting information on.
+    enc = ctx.fn(RDR, "ArffAttrReader._encoder")
+    lr = ctx.model.cls(RDR, "ArffLineReader")
+    keeps_quoting = any(isinstance(x, ast.Attribute) and x.attr in ("QUOTE_NONE",) for f_ in lr.methods.values() for x in ast.walk(f_)) or \
+        any("quoted" in a.arg for f_ in lr.methods.values() for a in f_.args.args)
+    for lam in [x for x in ast.walk(enc) if isinstance(x, ast.Lambda) and isinstance(x.body, ast.IfExp) and isinstance(x.body.body, ast.Constant) and x.body.body.value is None
+                and any(const_str(c_) == "?" for c_ in ast.walk(x.body.test))]:
+        ctx.ob("C12.R6", RDR, "ArffAttrReader._encoder", lam, "a quoted '?' (the one-character string) is not taken for the missing marker: the test sees quoting information", keeps_quoting,
+               stmt="string encoder: quoted ? vs missing")
     sp = ctx.fn(RDR, "ArffDataReader._sparse")
     txt = unparse(sp)
     ctx.ob("C12.R6", RDR, "ArffDataReader._sparse", sp, "sparse rows: a `?` value is recognised before a comma and before the closing brace", "' ?,' in" in txt and "' ?}'" in txt, stmt="sparse missing tests")
@@ -366,6 +549,15 @@ def r7_csv_dialect(ctx):
 
 
 CONTROLS = [
+    ("libsvm lines split on single blanks", RDR, M.replace_expr("LibsvmReader.filter", "line.split()", "line.strip().split(' ')"), "C12.R12"),
+    ("gzip bodies end with their first member", SRC, M.replace_stmt("HttpSource._byte_it_", lambda st: isinstance(st, ast.FunctionDef) and st.name == "decomp", "decomp = zlib.decompressobj(16 + zlib.MAX_WBITS).decompress"), "C12.R1"),
+    ("sparse nominal attributes always get a second '0'", RDR, M.replace_stmt("ArffAttrReader._encoder", M.text_has("not in categories"), "categories = ['0'] + categories"), "C12.R11"),
+    ("fallback parser re-joins with a comma", RDR, M.replace_expr("ArffLineReader._dense_advanced", "self._fallback_delim + d_line.popleft()", "',' + d_line.popleft()"), "C12.R5"),
+    ("fallback parser looks at the first character of an empty cell", RDR, M.replace_expr("ArffLineReader._dense_advanced", "item and item[0] in self._quotes", "item[0] in self._quotes"), "C12.R5"),
+    ("sparse rows split whatever they hold", RDR, M.replace_expr("ArffLineReader._sparse", "\"'\" in line or '\"' in line", "False"), "C12.R10"),
+    ("header deletes every backslash", RDR, M.replace_expr("ArffAttrReader._split", "re.sub('\\\\\\\\(.)', '\\\\1', item.strip().rstrip()[1:-1])", "item.strip().rstrip()[1:-1].replace('\\\\', '')"), "C12.R5"),
+    ("quote character tested through a stale local", RDR, M.delete_stmt("ArffLineReader._dense_simple", lambda st: isinstance(st, ast.Assign) and ast.unparse(st) == "quotechar = self._quotechar", nth=1), "C12.R9"),
+    ("UrlSource forwards the un-chunked body", SRC, M.replace_stmt("UrlSource.read", lambda st: isinstance(st, ast.Return), "return text"), "C12.R8"),
     ("only the bare 'w' mode is downgraded", SNK, M.replace_stmt("DiskSink.__exit__", M.text_has("self._mode[:1] == 'w'"), "if self._mode == 'w': self._mode = 'a'"), "C12.R3"),
     ("csv rows stripped of all whitespace", RDR, M.replace_expr("CsvReader.filter", "i.strip('\\r\\n')", "i.strip()"), "C12.R7"),
     ("only LF completes a line", SRC, M.replace_expr("DelimSource.read", "text[-1].splitlines()[0]", "text[-1] != '\\n'"), "C12.R2"),
